@@ -166,6 +166,8 @@ type c19dBMP struct {
 	reported map[string]bool
 	late     bool
 	downKind string
+	streamBroken bool // the byte stream stopped framing / parsing: reported as a violation, the scenario ends there
+	evaluated    bool
 	counting bool // counters are taken from the last (complete) decoding of a scenario only
 	markerNo int
 	sysName  string
@@ -178,6 +180,9 @@ func (h *c19dBMP) viol(tok int, key, what string, extra map[string]any) {
 		return
 	}
 	h.reported[k] = true
+	if strings.HasPrefix(key, "c19d:bmp:stream:") || strings.HasSuffix(key, ":parse-error") || strings.HasSuffix(key, ":update-parse-error") || strings.HasSuffix(key, ":length-mismatch") {
+		h.streamBroken = true
+	}
 	if extra == nil {
 		extra = map[string]any{}
 	}
@@ -885,8 +890,14 @@ func (h *c19dBMP) converge(phase string) *c19dBMPState {
 	var diffs []c19dViewDiff
 	compared := 0
 	for attempt := 0; attempt < 40; attempt++ {
-		data, _ := h.st.snapshot()
+		data, eof := h.st.snapshot()
+		if !h.checkStream(data, eof) {
+			return h.decode(nil, false)
+		}
 		s = h.decode(data, false)
+		if h.streamBroken {
+			return s
+		}
 		diffs, compared = h.compareViews(s)
 		if len(diffs) == 0 {
 			break
@@ -903,11 +914,106 @@ func (h *c19dBMP) converge(phase string) *c19dBMPState {
 }
 
 // waitFor polls cond on the decoded-on-demand raw stream; false = timeout.
+// c19dFrame is the strict monitor of the station: every octet received must belong to a BMP
+// message with a valid common header (version 3, a known type, a length that covers the headers of
+// that type and is not absurd), and the UPDATE of a route monitoring message must fill the message
+// exactly. It returns the number of complete messages and, for the first defect, its offset,
+// message index, class and description (class "" = none so far).
+func c19dFrame(data []byte, eof bool) (n int, off int, class, why string) {
+	for off < len(data) {
+		rest := data[off:]
+		if len(rest) < bmp.BMP_HEADER_SIZE {
+			if eof {
+				return n, off, "trailing-bytes", fmt.Sprintf("%d octets at the end of the closed stream are no BMP common header", len(rest))
+			}
+			return n, off, "", ""
+		}
+		l := int(binary.BigEndian.Uint32(rest[1:5]))
+		typ := rest[5]
+		min := bmp.BMP_HEADER_SIZE
+		if typ != bmp.BMP_MSG_INITIATION && typ != bmp.BMP_MSG_TERMINATION {
+			min += bmp.BMP_PEER_HEADER_SIZE
+		}
+		switch {
+		case rest[0] != bmp.BMP_VERSION:
+			return n, off, "unframeable", fmt.Sprintf("version octet %d where a BMP common header must start", rest[0])
+		case typ > bmp.BMP_MSG_ROUTE_MIRRORING:
+			return n, off, "unframeable", fmt.Sprintf("unknown BMP message type %d", typ)
+		case l < min:
+			return n, off, "unframeable", fmt.Sprintf("message length %d is shorter than the headers of a type %d message (%d)", l, typ, min)
+		case l > 1<<20:
+			return n, off, "unframeable", fmt.Sprintf("message length %d", l)
+		}
+		if l > len(rest) {
+			if eof {
+				return n, off, "trailing-bytes", fmt.Sprintf("the closed stream ends %d octets into a message of %d", len(rest), l)
+			}
+			return n, off, "", ""
+		}
+		if typ == bmp.BMP_MSG_ROUTE_MONITORING {
+			body := rest[min:l]
+			if len(body) < bgp.BGP_HEADER_LENGTH || !bytes.Equal(body[:16], bytes.Repeat([]byte{0xff}, 16)) {
+				return n, off, "route-monitoring:length-mismatch", "the route monitoring message does not hold a BGP message (marker) after the per-peer header"
+			}
+			if bl := int(body[16])<<8 | int(body[17]); bl != len(body) {
+				return n, off, "route-monitoring:length-mismatch", fmt.Sprintf("BMP message length %d leaves %d octets for an UPDATE whose own length field says %d", l, len(body), bl)
+			}
+		}
+		off += l
+		n++
+	}
+	return n, off, "", ""
+}
+
+// checkStream runs the strict monitor over everything received so far; the first defect is a
+// violation (never a timeout) and ends the scenario.
+func (h *c19dBMP) checkStream(data []byte, eof bool) bool {
+	if h.streamBroken {
+		return false
+	}
+	n, off, class, why := c19dFrame(data, eof)
+	if class == "" {
+		return true
+	}
+	lo, hi := off-96, off+160
+	if lo < 0 {
+		lo = 0
+	}
+	if hi > len(data) {
+		hi = len(data)
+	}
+	key := "c19d:bmp:stream:" + class
+	if strings.HasPrefix(class, "route-monitoring:") {
+		key = "c19d:bmp:" + class
+	}
+	h.viol(n, key, fmt.Sprintf("the octets gobgp sent to the station stop being a sequence of BMP messages at offset %d (message %d): %s", off, n, why),
+		map[string]any{"offset": off, "octets_from": lo, "octets": hex.EncodeToString(data[lo:hi]), "stream_length": len(data)})
+	h.streamBroken = true
+	return false
+}
+
+// timeout: a bounded wait ran out. If the stream is broken that is the (already reported) reason;
+// otherwise the whole stream is decoded once more - a message that does not parse explains it - and
+// only when nothing else does the scenario ends inconclusive.
+func (h *c19dBMP) timeout(msg string) {
+	data, eof := h.st.snapshot()
+	if h.checkStream(data, eof) {
+		h.decode(data, false)
+	}
+	if h.streamBroken {
+		return
+	}
+	h.rec.Inconclusive(msg)
+}
+
 func (h *c19dBMP) waitFor(cond func(data []byte, eof bool) bool) bool {
 	deadline := time.NewTimer(c19dWait)
 	defer deadline.Stop()
 	for {
 		data, eof := h.st.snapshot()
+		if !h.checkStream(data, eof) {
+			return false
+		}
 		if cond(data, eof) {
 			return true
 		}
@@ -1011,7 +1117,7 @@ func (h *c19dBMP) barrier() bool {
 				miss = append(miss, k)
 			}
 		}
-		h.rec.Inconclusive(fmt.Sprintf("c19d bmp case %d: marker routes did not reach the station within %v: %v (shape %v)", h.idx, c19dWait, miss, h.shape))
+		h.timeout(fmt.Sprintf("c19d bmp case %d: marker routes did not reach the station within %v: %v (shape %v)", h.idx, c19dWait, miss, h.shape))
 	}
 	return ok
 }
@@ -1127,6 +1233,15 @@ func c19dBMPCase(t *testing.T, rec *vlib.Rec, idx int) {
 		h.shape = append(h.shape, c.shape())
 	}
 	rec.Mark(fmt.Sprintf("c19d bmp case %d %v", idx, h.shape), true)
+	defer func() {
+		if h.streamBroken && !h.evaluated {
+			// decided: the stream broke (violation recorded) and the scenario ended there
+			rec.Eval()
+			rec.Count("bmp_scenarios", 1)
+			rec.Count("bmp_scenarios_ended_on_broken_stream", 1)
+			rec.Nontrivial("bmp|" + vlib.Hash(strings.Join(h.shape, "|")))
+		}
+	}()
 
 	st, err := c19dNewStation()
 	if err != nil {
@@ -1160,7 +1275,7 @@ func c19dBMPCase(t *testing.T, rec *vlib.Rec, idx int) {
 		}
 		bmpAdded = true
 		if !h.waitFor(func(data []byte, eof bool) bool { return c19dCountType(data, bmp.BMP_MSG_INITIATION) > 0 }) {
-			rec.Inconclusive(fmt.Sprintf("c19d bmp case %d: no Initiation message within %v", idx, c19dWait))
+			h.timeout(fmt.Sprintf("c19d bmp case %d: no Initiation message within %v", idx, c19dWait))
 			return false
 		}
 		return true
@@ -1192,6 +1307,9 @@ func c19dBMPCase(t *testing.T, rec *vlib.Rec, idx int) {
 	}
 	h.traffic(4 + r.IntN(8))
 	if late {
+		// the initial dump is one watch event per peer and family: make it carry several routes
+		// of different encoded size (prefix lengths and attribute sets vary per UPDATE)
+		h.traffic(6 + r.IntN(8))
 		// let gobgp take everything in before the station connects: the initial dump is what is tested
 		time.Sleep(50 * time.Millisecond)
 		if !addBmp() {
@@ -1203,15 +1321,21 @@ func c19dBMPCase(t *testing.T, rec *vlib.Rec, idx int) {
 		return
 	}
 	s := h.converge("after phase 1")
+	if h.streamBroken {
+		return
+	}
 	h.traffic(3 + r.IntN(8))
 	if !h.barrier() {
 		return
 	}
 	s = h.converge("after phase 2")
+	if h.streamBroken {
+		return
+	}
 
 	// sessions: one Peer Up per established session
 	if !h.waitFor(func(data []byte, eof bool) bool { return c19dCountType(data, bmp.BMP_MSG_PEER_UP_NOTIFICATION) >= len(h.peers) }) {
-		rec.Inconclusive(fmt.Sprintf("c19d bmp case %d: fewer Peer Up messages than sessions within %v", idx, c19dWait))
+		h.timeout(fmt.Sprintf("c19d bmp case %d: fewer Peer Up messages than sessions within %v", idx, c19dWait))
 		return
 	}
 	data, _ := st.snapshot()
@@ -1245,7 +1369,7 @@ func c19dBMPCase(t *testing.T, rec *vlib.Rec, idx int) {
 			return len(seen) >= len(h.peers)
 		})
 		if !ok {
-			rec.Inconclusive(fmt.Sprintf("c19d bmp case %d: no statistics report for every peer within %v", idx, c19dWait))
+			h.timeout(fmt.Sprintf("c19d bmp case %d: no statistics report for every peer within %v", idx, c19dWait))
 			return
 		}
 		data, _ := st.snapshot()
@@ -1314,7 +1438,7 @@ func c19dBMPCase(t *testing.T, rec *vlib.Rec, idx int) {
 				}
 			}
 			if !closed {
-				rec.Inconclusive(fmt.Sprintf("c19d bmp case %d: connection of the deleted peer still open after %v", idx, c19dWait))
+				h.timeout(fmt.Sprintf("c19d bmp case %d: connection of the deleted peer still open after %v", idx, c19dWait))
 				return
 			}
 			if !h.barrier() {
@@ -1325,7 +1449,7 @@ func c19dBMPCase(t *testing.T, rec *vlib.Rec, idx int) {
 				rec.Count("bmp_peer_down_missing", 1)
 			}
 		} else if !h.waitFor(func(data []byte, eof bool) bool { return c19dCountType(data, bmp.BMP_MSG_PEER_DOWN_NOTIFICATION) > 0 }) {
-			rec.Inconclusive(fmt.Sprintf("c19d bmp case %d: no Peer Down within %v after %s", idx, c19dWait, downKind))
+			h.timeout(fmt.Sprintf("c19d bmp case %d: no Peer Down within %v after %s", idx, c19dWait, downKind))
 			return
 		}
 		// what gobgp wrote to the peer before the session ended
@@ -1397,6 +1521,9 @@ func c19dBMPCase(t *testing.T, rec *vlib.Rec, idx int) {
 			return
 		}
 		s = h.converge("after session loss")
+		if h.streamBroken {
+			return
+		}
 		if reup && (downKind == "remote-close" || downKind == "remote-notification") {
 			// the session comes back: a second Peer Up with the new OPENs, the routes are reported afresh
 			p.held = map[bgp.Family]map[c19dNLRI]bool{}
@@ -1410,6 +1537,9 @@ func c19dBMPCase(t *testing.T, rec *vlib.Rec, idx int) {
 				return
 			}
 			s = h.converge("after re-establishment")
+			if h.streamBroken {
+				return
+			}
 			if ss := s.sess[p.conf.Addr]; ss == nil || ss.ups != 2 || !ss.up {
 				h.viol(-1, "c19d:bmp:peer-up:count:re-established", fmt.Sprintf("session %s was established twice, the station saw %v", p.conf.Addr, ss), nil)
 			}
@@ -1423,10 +1553,13 @@ func c19dBMPCase(t *testing.T, rec *vlib.Rec, idx int) {
 	}
 	bmpAdded = false
 	if !h.waitFor(func(data []byte, eof bool) bool { return eof }) {
-		rec.Inconclusive(fmt.Sprintf("c19d bmp case %d: the BMP connection was not closed within %v after DeleteBmp", idx, c19dWait))
+		h.timeout(fmt.Sprintf("c19d bmp case %d: the BMP connection was not closed within %v after DeleteBmp", idx, c19dWait))
 		return
 	}
 	data, _ = st.snapshot()
+	if !h.checkStream(data, true) {
+		return
+	}
 	h.counting = true
 	s = h.decode(data, true)
 	h.counting = false
@@ -1447,6 +1580,7 @@ func c19dBMPCase(t *testing.T, rec *vlib.Rec, idx int) {
 			rec.Inconclusive(fmt.Sprintf("c19d bmp case %d: session %s was lost unexpectedly (notification %v)", idx, p.conf.Addr, p.sp.notif))
 		}
 	}
+	h.evaluated = true
 	rec.Eval()
 	rec.Count("bmp_scenarios", 1)
 	rec.Count("bmp_scenarios_"+strings.ToLower(strings.TrimPrefix(h.policy.String(), "MONITORING_POLICY_")), 1)
